@@ -348,9 +348,16 @@ bool can_parse(std::string_view input, const std::string_view* base_input) {
 
   // Relative resolution combines base + input; bound the sum so 3x expansion
   // of either side cannot push the final href past max_length.
+  // The 3x bound only covers percent-encoding. Host canonicalisation is not
+  // bounded that way (IPv4 "0" becomes "0.0.0.0", IDNA mapping and Punycode
+  // can grow a label several times, "//" and "/" may be added: "ws:0" is 4
+  // bytes and normalizes to the 13-byte "ws://0.0.0.0/"), so validation-only
+  // parsing is used only when no limit has been configured.
   const size_t combined =
       input.size() + (base_input == nullptr ? 0 : base_input->size());
-  const bool size_safe = combined <= static_cast<size_t>(max_length) / 3;
+  const bool size_safe =
+      max_length == std::numeric_limits<uint32_t>::max() &&
+      combined <= static_cast<size_t>(max_length) / 3;
 
   if (size_safe) {
     // Validation-only: no buffer build, host still fully checked.
